@@ -209,11 +209,8 @@ Definition lenient_text : list N :=      (* {"b":-0,"b":true} *)
   [123; 34; 98; 34; 58; 45; 48; 44; 34; 98; 34; 58; 116; 114; 117; 101; 125]%N.
 Theorem value_route_more_lenient :
   parse_cfg lenient_text = None /\
-  forall nf, nf [45; 48]%N = true -> value_text_route nf lenient_text = Some [([98%N], Some true)].
-Proof.
-  split; [vm_compute; reflexivity|]. intros nf H.
-  unfold value_text_route, parse_json. vm_compute. rewrite H. reflexivity.
-Qed.
+  value_text_route (fun _ => true) lenient_text = Some [([98%N], Some true)].
+Proof. split; vm_compute; reflexivity. Qed.
 
 (* ------------------------------------------------------------------------------------------- *)
 (* C. Config::from_lsp_config                                                                   *)
@@ -255,7 +252,7 @@ Proof.
     { apply keqb_neq. intros ->. apply Hn. apply Hsub. now left. }
     cbn [orb]. f_equal. apply IH. intros k1 H1. apply Hsub. now right. }
   rewrite E1. rewrite get_insert_other; [reflexivity|].
-  intros ->. apply Hn. cbn. tauto.
+  intros <-. apply Hn. cbn. tauto.
 Qed.
 
 (* a non-boolean, non-null value anywhere in "linters" makes from_lsp_config fail (the server keeps its old Config) *)
